@@ -80,21 +80,35 @@ Proof. eexists. vm_compute. repeat split. Qed.
 Theorem race_free_spec : forall M : matrix, race_free M = true <-> RaceFree M.
 Proof. exact race_free_spec. Qed.
 
-(** partial: without report-summaries the analyzer's matrix is race free under all other option combinations
-    (report-coverage, report-paths, summarize-on-demand) *)
+(** the analyzer as it is (matrix variant [fixed = true]: since /repo commit d79ddc0 the summaries report is written
+    synchronously between STEP 2 and STEP 3 of BuildGraph): race free under every combination of report-summaries,
+    report-coverage, report-paths, summarize-on-demand; by [race_free_spec] no two conflicting accesses of the matrix
+    are unordered, in particular every report file write is ordered before the return *)
+Theorem analyzer_race_free :
+  forall report_summaries report_coverage report_paths on_demand : bool,
+    race_free (analyzer report_summaries report_coverage report_paths on_demand true) = true.
+Proof. exact analyzer_race_free. Qed.
+
+Theorem analyzer_race_free_prop :
+  forall report_summaries report_coverage report_paths on_demand : bool,
+    RaceFree (analyzer report_summaries report_coverage report_paths on_demand true).
+Proof. exact analyzer_race_free_prop. Qed.
+
+(** without report-summaries both variants of the matrix (before / after the repair) are race free *)
 Theorem race_free_partial :
   forall report_coverage report_paths on_demand fixed : bool,
     race_free (analyzer false report_coverage report_paths on_demand fixed) = true.
 Proof. exact analyzer_race_free_without_report_summaries. Qed.
 
-(** refuted: with report-summaries the detached writer goroutine reads FlowGraph.Summaries while STEP 3 writes it *)
+(** the matrix of the code BEFORE the repair (detached writer goroutine, [fixed = false]) is refuted with
+    report-summaries: the writer reads FlowGraph.Summaries while STEP 3 writes it ... *)
 Theorem report_writer_refuted :
   forall report_coverage report_paths on_demand : bool,
     let M := analyzer true report_coverage report_paths on_demand false in
     race_free M = false /\ In writer_witness (racy_pairs M).
 Proof. exact analyzer_report_writer_races. Qed.
 
-(** refuted: the writer's writes to the summaries file are not ordered before the return of the analysis *)
+(** ... and its writes to the summaries file are not ordered before the return of the analysis *)
 Theorem report_file_complete_refuted :
   forall report_coverage report_paths on_demand : bool,
     In file_witness (racy_pairs (analyzer true report_coverage report_paths on_demand false)).
@@ -106,12 +120,6 @@ Theorem racy_pairs_sound :
     WfHB M -> In (x, y) (racy_pairs M) ->
     In x (m_acc M) /\ In y (m_acc M) /\ Conflict x y /\ ~ Ordered M x y.
 Proof. exact racy_pairs_sound. Qed.
-
-(** with the proposed fix (writer joined before STEP 3) the matrix is race free under every option combination *)
-Theorem race_free_fixed :
-  forall report_summaries report_coverage report_paths on_demand : bool,
-    race_free (analyzer report_summaries report_coverage report_paths on_demand true) = true.
-Proof. exact analyzer_fixed_race_free. Qed.
 
 (** non-vacuity of the race check: a two-step matrix that races, and the same with a lock *)
 Example conc_ex_racy :
